@@ -178,6 +178,8 @@ def table_rows(lines, a, b, sig, int_first, heads=None):
             kp = cc.printed_keys(l, toks[0]['start'], sig[0])
             if kp is None: continue
         if toks[0]['start'] < kp[-1] + 5: continue       # not a row of this table
+        idx = l[kp[-1] + 5:toks[0]['start']].strip()
+        if any(ch.isalpha() for ch in idx): continue     # between names and values: the row index (and a marker such as * or +) only
         out.append((i, tuple(cc.fix_name(l[p:p + 5]) for p in kp), toks))
     return out
 
